@@ -396,6 +396,11 @@ def data_cases(tier, seed):
         for flat in itertools.product((0, 3), repeat=2 * n):
             x = [list(flat[2 * i:2 * i + 2]) for i in range(n)]
             yield {"fam": "data", "x": x, "n": n, "score": "CUSUM", "msl": 1, "M": n, "growth": 2.0, "thr_scale": 0.3}
+    # three columns (aggregation over all columns)
+    for n in (6, 7):
+        for xs in itertools.product((0, 3), repeat=n):
+            yield {"fam": "data", "x": util.three_columns(xs), "n": n, "score": "CUSUM" if n == 6 else "L2cost", "msl": 1 if n == 6 else 2, "M": n,
+                   "growth": 1.5, "thr_scale": 0.2}
     # fitted on a shorter prefix, predicting the full series (threshold read back; the statement is about the data given to predict)
     for n in (7, 8) if tier == "quick" else (7, 8, 9, 10):
         for xs in itertools.product((0, 3), repeat=n):
